@@ -102,11 +102,18 @@ func (g *gen) exit(c ctx) r.Val {
 		if b == "" {
 			cands = append(cands, cand{form: r.L(append([]r.Val{sym("return")}, valued...)...), kind: "return"})
 		} else {
+			// symbols are compared without regard to case: one exit in four spells its block name or tag in upper case
+			if g.pick("blockcase", 4) == 0 {
+				b = strings.ToUpper(b)
+			}
 			cands = append(cands, cand{form: r.L(append([]r.Val{sym("return-from"), sym(b)}, valued...)...), kind: "return-from"})
 		}
 	}
 	if !(c.inFn && h.ExclOn("go-out-of-lambda")) {
 		for _, t := range c.tags {
+			if g.pick("tagcase", 4) == 0 {
+				t = strings.ToUpper(t)
+			}
 			cands = append(cands, cand{form: r.L(sym("go"), sym(t)), kind: "go"})
 		}
 	}
